@@ -325,6 +325,7 @@ func checkTokenWiring(w *World, r *Report, ctor *ssa.Function, tokenIdx, profIdx
 	if n == 0 {
 		r.Viol("secret.token-auth", "module: call of "+FuncName(ctor), "-", "the router constructor is never called")
 	}
+	checkRandomSource(w, r)
 	// validate table
 	v := w.FuncByRole("config", "Config.validate", func(f *ssa.Function) bool { return recvIs(f, "Config") && sigHas(f, nil, []string{"error"}) })
 	if v == nil {
@@ -539,6 +540,70 @@ func checkConfigProducer(w *World, r *Report, fn *ssa.Function, depth int) {
 			r.OK("secret.provenance", strings.TrimSuffix(k, "#ok"), w.Pos(fn.Pos()), "every success path returning this configuration took validate()==nil for it, or generated a ≥16-character secret whose error was tested")
 		}
 	}
+}
+
+// checkRandomSource: the generated secret is random. The generator hands out its string with a nil error only behind the
+// err == nil edge of crypto/rand.Read (a failed read leaves the buffer zeroed: a secret everybody knows).
+func checkRandomSource(w *World, r *Report) {
+	gen := w.FuncByName("helper", "GenerateRandomString")
+	if gen == nil {
+		r.Undecided("secret.random-source", "helper.GenerateRandomString", "-", "not found")
+		return
+	}
+	pr := w.EnumPaths(gen, EnumOpts{Inline: true, MaxPaths: 2000})
+	ok, nSucc, detail := true, 0, ""
+	for _, p := range pr.Paths {
+		if p.End != "return" || len(p.Ret) != 2 {
+			continue
+		}
+		ret1 := p.Ret[1]
+		if inner := unwrapErrAP(ret1); inner != ret1 {
+			for _, l := range p.Lits {
+				if l.Val && l.Atom.Op == "==" && l.Atom.L == inner && l.Atom.R == "nil" {
+					ret1 = "nil"
+				}
+			}
+		}
+		if ret1 != "nil" {
+			continue
+		}
+		read := ""
+		for _, e := range p.Effects {
+			if e.Kind == "call" && (e.Target == "crypto/rand.Read" || strings.HasSuffix(e.Target, "crypto/rand.Read") || e.Target == "io.ReadFull") {
+				read = e.Target + "(" + e.Val + ")"
+			}
+		}
+		good := false
+		for _, l := range p.Lits {
+			if read != "" && l.Atom.Op == "==" && l.Atom.L == read+"#1" && l.Atom.R == "nil" && l.Val {
+				good = true
+			}
+			// a retry loop: the error tested behind the loop is the result of the last read (or the initial nil, which it
+			// cannot be on a path that executed a read) — `φ(read#1|nil) == nil`
+			if read != "" && l.Atom.Op == "==" && l.Atom.R == "nil" && l.Val && strings.HasPrefix(l.Atom.L, "φ(") && strings.HasSuffix(l.Atom.L, ")") {
+				alts, has, only := strings.Split(l.Atom.L[len("φ("):len(l.Atom.L)-1], "|"), false, true
+				for _, a := range alts {
+					if a == read+"#1" {
+						has = true
+					} else if a != "nil" {
+						only = false
+					}
+				}
+				if has && only {
+					good = true
+				}
+			}
+		}
+		if good {
+			nSucc++
+		} else {
+			ok = false
+			detail = "a nil error is returned on a path without a successful read of the system random source (" + p.LitString() + ")"
+		}
+	}
+	r.Check(ok && nSucc > 0 && !pr.Truncated, "secret.random-source", FuncName(gen)+": generated secret comes from crypto/rand", w.Pos(gen.Pos()),
+		"a string is returned with a nil error only behind the err == nil edge of crypto/rand.Read",
+		"the generator can return success without random bytes: "+detail+" — the generated JWT secret is predictable and anyone can sign accepted tokens")
 }
 
 // boolFlagDefault finds the cli.BoolFlag literal with the given name in the module and returns its default.
